@@ -54,3 +54,12 @@ def matches(c, event, sender):
 def smul(q, s):
     """q * s (kept linear on the symbolic side: uninterpreted + the defining recurrence)."""
     return q * s
+
+
+def sq(t):
+    return t * t
+
+
+def dist2(positions, i, c):
+    """squared Euclidean distance between channels i and c"""
+    return sq(positions[c][0] - positions[i][0]) + sq(positions[c][1] - positions[i][1])
